@@ -18,9 +18,21 @@
 
   `Appr k X x̂ x` is the running-error invariant: `|x| ≤ X` and `|x̂ − x| ≤ ((1+u)^k − 1)·X`; the rules
   `Appr.add/sub/mul/neg/div…` propagate it through one rounded operation each, and the tactic `appr`
-  applies them along an expression tree.
+  applies them along an expression tree (`appr0`: the same for exact operations on perturbed inputs).
+
+  Contents: (1) the class, `RF`, `Scalar RF`; (2) `theta`, `theta_le_gamma` (Higham's γ_k), `Appr` and
+  its rules, incl. the rounded quotient `Appr.div` (cost `k + 2` roundings under `DivOK k`);
+  (3) the two instances, `flBin_natCast` (integers `< 2^p` are fixed points of `fl`, which is why the
+  literal conversion `nat n` is taken exact), `binary64_lossy`, `binary32_lossy`;
+  (4) namespace `Round`: one `Appr` lemma per model function (`SO2/C1/SE2/SO3/SE3` `composition`,
+  `inverse`, `SO3.matrix`, `mulVec`) — these unfold the MODEL's definitions at `RF`, nothing is restated;
+  (5) norm forms of the majorants and the numbers for double / single precision.
+  The property-level statements are in SmoothProps/C01Round.lean.
 -/
 import SmoothProofs.Real
+import SmoothProofs.C01Small
+import SmoothProofs.C01SO3
+import SmoothProofs.C01SE3
 import Mathlib.Data.Int.Log
 import Mathlib.Algebra.Order.Round
 import Mathlib.Tactic.Positivity
@@ -181,7 +193,7 @@ theorem divOK_of (k : ℕ) (h1 : (k : ℝ) * u ≤ 1 / 8) (h2 : (k : ℝ) ^ 2 * 
     rw [e]; gcongr
   nlinarith
 
-theorem divOK_le8 (k : ℕ) (hk : k ≤ 6) : DivOK k := by
+theorem divOK_le6 (k : ℕ) (hk : k ≤ 6) : DivOK k := by
   have hu := u_nonneg
   have hul := u_le
   have hk' : (k : ℝ) ≤ 6 := by exact_mod_cast hk
@@ -552,10 +564,10 @@ theorem c1_inverse_appr (g : Vec ℝ 2) (h : g 0 ^ 2 + g 1 ^ 2 ≠ 0) (i : Fin 2
     · rw [abs_of_nonneg hpos, ← abs_mul, ← abs_mul, abs_mul_self, abs_mul_self]
   have e : |g 0 * g 0 + g 1 * g 1| = g 0 ^ 2 + g 1 ^ 2 := by rw [abs_of_nonneg hpos]; ring
   fin_cases i
-  · have := (Appr.exact (g 0)).neg.div ht ht0 (divOK_le8 2 (by norm_num))
+  · have := (Appr.exact (g 0)).neg.div ht ht0 (divOK_le6 2 (by norm_num))
     rw [e] at this
     simpa [C1.inverse, mk2, Vec.of] using this
-  · have := (Appr.exact (g 1)).div ht ht0 (divOK_le8 2 (by norm_num))
+  · have := (Appr.exact (g 1)).div ht ht0 (divOK_le6 2 (by norm_num))
     rw [e] at this
     simpa [C1.inverse, mk2, Vec.of] using this
 
@@ -591,7 +603,7 @@ theorem so3_inverse_appr (g : Vec ℝ 4) (i : Fin 4) :
     Appr 7 (|g i| / sqNorm g) (toReal ((SO3.inverse (Vec.toRF g)) i)) ((SO3.inverse g) i) := by
   have hn := sqNorm4_appr g
   have hpos := sqNorm4_nonneg g
-  have hok : DivOK 5 := divOK_le8 5 (by norm_num)
+  have hok : DivOK 5 := divOK_le6 5 (by norm_num)
   by_cases h0 : sqNorm g = 0
   · -- g = 0: both sides take the `else` branch
     have hg : ∀ k, g k = 0 := by
@@ -901,6 +913,277 @@ theorem se3_inverse_rot_appr (g : Vec ℝ 7) (i : Fin 4) :
       ((SE3.so3 (SE3.inverse g)) i) := by
   rw [se3_inv_so3, se3_inv_so3, se3_so3_toRF]
   simpa [qinvAbs, Vec.of] using so3_inverse_appr (SE3.so3 g) i
+
+end Round
+end
+
+/-! # Norm forms of the majorants, and the numbers for double / single precision
+    (helpers of SmoothProps/C01Round.lean) -/
+
+section
+open Lin Scalar
+namespace Round
+
+/-! ## Norm helpers -/
+
+/-- Euclidean norm of a coefficient pair -/
+def nrm2 (g : Vec ℝ 2) : ℝ := √(g 0 ^ 2 + g 1 ^ 2)
+
+theorem cs2 (p q r s : ℝ) : |p| * |q| + |r| * |s| ≤ √(p ^ 2 + r ^ 2) * √(q ^ 2 + s ^ 2) := by
+  have := Real.sum_mul_le_sqrt_mul_sqrt (Finset.univ : Finset (Fin 2)) ![|p|, |r|] ![|q|, |s|]
+  simpa [Fin.sum_univ_two, sq_abs] using this
+
+theorem cs4 (p0 p1 p2 p3 q0 q1 q2 q3 : ℝ) :
+    |p0| * |q0| + |p1| * |q1| + |p2| * |q2| + |p3| * |q3|
+      ≤ √(p0 ^ 2 + p1 ^ 2 + p2 ^ 2 + p3 ^ 2) * √(q0 ^ 2 + q1 ^ 2 + q2 ^ 2 + q3 ^ 2) := by
+  have := Real.sum_mul_le_sqrt_mul_sqrt (Finset.univ : Finset (Fin 4)) ![|p0|, |p1|, |p2|, |p3|]
+    ![|q0|, |q1|, |q2|, |q3|]
+  simpa [Fin.sum_univ_four, sq_abs] using this
+
+theorem compAbs2_le (a b : Vec ℝ 2) (i : Fin 2) : compAbs2 a b i ≤ nrm2 a * nrm2 b := by
+  unfold nrm2
+  fin_cases i
+  · have := cs2 (a 0) (b 1) (a 1) (b 0)
+    simp only [compAbs2, mk2, Vec.of]
+    calc _ ≤ _ := this
+      _ = _ := by rw [add_comm (b.get 1 ^ 2)]
+  · have := cs2 (a 1) (b 1) (a 0) (b 0)
+    simp only [compAbs2, mk2, Vec.of]
+    calc _ ≤ _ := this
+      _ = _ := by rw [add_comm (b.get 1 ^ 2), add_comm (a.get 1 ^ 2)]
+
+theorem nrm2_nonneg (g : Vec ℝ 2) : 0 ≤ nrm2 g := Real.sqrt_nonneg _
+theorem abs_le_nrm2 (g : Vec ℝ 2) (k : Fin 2) : |g k| ≤ nrm2 g := by
+  apply Real.abs_le_sqrt
+  fin_cases k <;> simp <;> positivity
+
+/-- translation rows: `|R(a)|·|t_b| + |t_a| ≤ ‖so2 a‖·‖t_b‖ + |t_a|`; rotation rows: `≤ ‖so2 a‖·‖so2 b‖` -/
+theorem se2CompAbs_le (a b : Vec ℝ 4) (i : Fin 4) :
+    se2CompAbs a b i ≤ if i.val < 2 then nrm2 (SE2.so2 a) * nrm2 (SE2.r2 b) + |a i|
+      else nrm2 (SE2.so2 a) * nrm2 (SE2.so2 b) := by
+  unfold nrm2
+  fin_cases i <;> simp [se2CompAbs, SE2.so2, SE2.r2, mk2, mk4, Vec.of]
+  · have := cs2 (a 3) (b 0) (a 2) (b 1)
+    rw [add_comm (a.get 3 ^ 2)] at this; exact this
+  · exact cs2 (a 2) (b 0) (a 3) (b 1)
+  · have := cs2 (a 2) (b 3) (a 3) (b 2)
+    rw [add_comm (b.get 3 ^ 2)] at this; exact this
+  · have := cs2 (a 3) (b 3) (a 2) (b 2)
+    rw [add_comm (b.get 3 ^ 2), add_comm (a.get 3 ^ 2)] at this; exact this
+
+/-- Euclidean norm of a quaternion -/
+def nrm4 (q : Vec ℝ 4) : ℝ := √(SO3.sqn q)
+
+theorem nrm4_nonneg (q : Vec ℝ 4) : 0 ≤ nrm4 q := Real.sqrt_nonneg _
+theorem sqn_nonneg (q : Vec ℝ 4) : 0 ≤ SO3.sqn q := by unfold SO3.sqn; positivity
+theorem nrm4_sq (q : Vec ℝ 4) : nrm4 q ^ 2 = SO3.sqn q := Real.sq_sqrt (sqn_nonneg q)
+theorem sqNorm_eq_sqn (q : Vec ℝ 4) : sqNorm q = SO3.sqn q := by rw [sqNorm4_real, SO3.sqn]; ring
+
+theorem qabs_le (a b : Vec ℝ 4) (i : Fin 4) : qabs a b i ≤ nrm4 a * nrm4 b := by
+  unfold nrm4 SO3.sqn
+  fin_cases i <;> simp only [qabs, mk4, Vec.of]
+  · have := cs4 (a 3) (a 0) (a 1) (a 2) (b 0) (b 3) (b 2) (b 1)
+    refine this.trans (le_of_eq ?_); congr 2 <;> ring
+  · have := cs4 (a 3) (a 1) (a 2) (a 0) (b 1) (b 3) (b 0) (b 2)
+    refine this.trans (le_of_eq ?_); congr 2 <;> ring
+  · have := cs4 (a 3) (a 2) (a 0) (a 1) (b 2) (b 3) (b 1) (b 0)
+    refine this.trans (le_of_eq ?_); congr 2 <;> ring
+  · have := cs4 (a 3) (a 0) (a 1) (a 2) (b 3) (b 0) (b 1) (b 2)
+    refine this.trans (le_of_eq ?_); congr 2 <;> ring
+
+theorem qabs_nonneg (a b : Vec ℝ 4) (i : Fin 4) : 0 ≤ qabs a b i := by
+  fin_cases i <;> simp only [qabs, mk4, Vec.of] <;> positivity
+
+/-- entries of the absolute-value rotation matrix when every `Q k ∈ [0, m]` -/
+theorem so3MatAbs_le (Q : Vec ℝ 4) (m : ℝ) (h0 : ∀ k, 0 ≤ Q k) (hm : ∀ k, Q k ≤ m) (i j : Fin 3) :
+    so3MatAbs Q i j ≤ 1 + 4 * m ^ 2 := by
+  have a0 := h0 0; have a1 := h0 1; have a2 := h0 2; have a3 := h0 3
+  have b0 := hm 0; have b1 := hm 1; have b2 := hm 2; have b3 := hm 3
+  have hm0 : 0 ≤ m := a0.trans b0
+  have p : ∀ x y : ℝ, 0 ≤ x → 0 ≤ y → x ≤ m → y ≤ m → x * y ≤ m ^ 2 := fun x y hx hy hxm hym => by
+    rw [sq]; exact mul_le_mul hxm hym hy hm0
+  fin_cases i <;> fin_cases j <;> simp only [so3MatAbs, mat3, Mat.of] <;>
+    nlinarith [p _ _ a0 a0 b0 b0, p _ _ a1 a1 b1 b1, p _ _ a2 a2 b2 b2, p _ _ a3 a3 b3 b3,
+      p _ _ a1 a0 b1 b0, p _ _ a2 a3 b2 b3, p _ _ a2 a0 b2 b0, p _ _ a1 a3 b1 b3, p _ _ a2 a1 b2 b1,
+      p _ _ a0 a3 b0 b3, sq_nonneg m]
+
+theorem abs_le_nrm4 (g : Vec ℝ 4) (k : Fin 4) : |g k| ≤ nrm4 g := by
+  apply Real.abs_le_sqrt
+  unfold SO3.sqn
+  fin_cases k <;> simp <;> nlinarith [sq_nonneg (g 0), sq_nonneg (g 1), sq_nonneg (g 2), sq_nonneg (g 3)]
+
+/-- row sums of the absolute-value rotation matrix: `Σ_l |R|_il v_l ≤ (1 + 4n)·T` when `ΣQ² ≤ n`, `0 ≤ v ≤ T` -/
+theorem so3MatAbs_row (Q : Vec ℝ 4) (h0 : ∀ k, 0 ≤ Q k) (n : ℝ)
+    (hn : Q 0 ^ 2 + Q 1 ^ 2 + Q 2 ^ 2 + Q 3 ^ 2 ≤ n) (v0 v1 v2 T : ℝ)
+    (p0 : 0 ≤ v0) (q0 : v0 ≤ T) (q1 : v1 ≤ T) (q2 : v2 ≤ T) (i : Fin 3) :
+    so3MatAbs Q i 0 * v0 + so3MatAbs Q i 1 * v1 + so3MatAbs Q i 2 * v2 ≤ (1 + 4 * n) * T := by
+  have a0 := h0 0; have a1 := h0 1; have a2 := h0 2; have a3 := h0 3
+  have hT : 0 ≤ T := p0.trans q0
+  have hE : ∀ j, 0 ≤ so3MatAbs Q i j := by
+    intro j
+    fin_cases i <;> fin_cases j <;> simp only [so3MatAbs, mat3, Mat.of] <;> positivity
+  have hsum : so3MatAbs Q i 0 + so3MatAbs Q i 1 + so3MatAbs Q i 2 ≤ 1 + 4 * n := by
+    fin_cases i <;> simp only [so3MatAbs, mat3, Mat.of] <;>
+      nlinarith [sq_nonneg (Q 0 - Q 1), sq_nonneg (Q 2 - Q 3), sq_nonneg (Q 2 - Q 0), sq_nonneg (Q 1 - Q 3),
+        sq_nonneg (Q 2 - Q 1), sq_nonneg (Q 0 - Q 3), sq_nonneg (Q 0), sq_nonneg (Q 1), sq_nonneg (Q 2),
+        sq_nonneg (Q 3)]
+  calc so3MatAbs Q i 0 * v0 + so3MatAbs Q i 1 * v1 + so3MatAbs Q i 2 * v2
+      ≤ so3MatAbs Q i 0 * T + so3MatAbs Q i 1 * T + so3MatAbs Q i 2 * T := by
+        have := hE 0; have := hE 1; have := hE 2
+        gcongr
+    _ = (so3MatAbs Q i 0 + so3MatAbs Q i 1 + so3MatAbs Q i 2) * T := by ring
+    _ ≤ (1 + 4 * n) * T := by gcongr
+
+theorem se3TransAbs_le (a b : Vec ℝ 7) (n T : ℝ) (hn : SO3.sqn (SE3.so3 a) ≤ n)
+    (hb : ∀ l, |SE3.r3 b l| ≤ T) (i : Fin 3) (ha : |SE3.r3 a i| ≤ T) :
+    se3TransAbs a b i ≤ (1 + 4 * n) * T + T := by
+  unfold se3TransAbs
+  have := so3MatAbs_row (.of (fun l => |SE3.so3 a l|)) (fun k => by simp [Vec.of]) n
+    (by simpa [Vec.of, SO3.sqn] using hn) |SE3.r3 b 0| |SE3.r3 b 1| |SE3.r3 b 2| T
+    (abs_nonneg _) (hb 0) (hb 1) (hb 2) i
+  linarith
+
+theorem se3InvTransAbs_le (g : Vec ℝ 7) (m T : ℝ) (hm0 : 0 < m) (hm : m ≤ SO3.sqn (SE3.so3 g))
+    (hg : ∀ l, |SE3.r3 g l| ≤ T) (i : Fin 3) :
+    se3InvTransAbs g i ≤ (1 + 4 / m) * T := by
+  unfold se3InvTransAbs
+  have hpos : 0 < SO3.sqn (SE3.so3 g) := lt_of_lt_of_le hm0 hm
+  have hsum : qinvAbs (SE3.so3 g) 0 ^ 2 + qinvAbs (SE3.so3 g) 1 ^ 2 + qinvAbs (SE3.so3 g) 2 ^ 2
+      + qinvAbs (SE3.so3 g) 3 ^ 2 ≤ 1 / m := by
+    simp only [qinvAbs, Vec.of, sqNorm_eq_sqn, div_pow, sq_abs]
+    have e : (SE3.so3 g) 0 ^ 2 / SO3.sqn (SE3.so3 g) ^ 2 + (SE3.so3 g) 1 ^ 2 / SO3.sqn (SE3.so3 g) ^ 2
+        + (SE3.so3 g) 2 ^ 2 / SO3.sqn (SE3.so3 g) ^ 2 + (SE3.so3 g) 3 ^ 2 / SO3.sqn (SE3.so3 g) ^ 2
+        = 1 / SO3.sqn (SE3.so3 g) := by
+      have hne : SO3.sqn (SE3.so3 g) ≠ 0 := hpos.ne'
+      rw [← add_div, ← add_div, ← add_div]
+      rw [show (SE3.so3 g) 0 ^ 2 + (SE3.so3 g) 1 ^ 2 + (SE3.so3 g) 2 ^ 2 + (SE3.so3 g) 3 ^ 2
+        = SO3.sqn (SE3.so3 g) from rfl]
+      field_simp
+    rw [e]
+    exact one_div_le_one_div_of_le hm0 hm
+  have := so3MatAbs_row (qinvAbs (SE3.so3 g))
+    (fun k => by simp only [qinvAbs, Vec.of, sqNorm_eq_sqn]; positivity) (1 / m) hsum
+    |SE3.r3 g 0| |SE3.r3 g 1| |SE3.r3 g 2| T
+    (abs_nonneg _) (hg 0) (hg 1) (hg 2) i
+  calc _ ≤ _ := this
+    _ = _ := by ring
+
+
+
+variable [Rounding]
+
+/-- `u/(1 − 32u)` -/
+def ubar : ℝ := u / (1 - 32 * u)
+
+theorem ubar_nonneg : 0 ≤ ubar := by
+  have := u_nonneg; have := u_le
+  unfold ubar
+  apply div_nonneg <;> linarith
+
+theorem theta_le_ubar (k : ℕ) (hk : k ≤ 32) : theta k ≤ k * ubar := by
+  have hu := u_nonneg; have hl := u_le
+  have hk' : (k : ℝ) ≤ 32 := by exact_mod_cast hk
+  have hk0 : (0 : ℝ) ≤ k := Nat.cast_nonneg k
+  have h1 : (k : ℝ) * u ≤ 32 * u := by gcongr
+  have := theta_le_lin k (32 * u) (by linarith) h1
+  unfold ubar
+  rw [mul_div_assoc] at this
+  exact this
+
+/-- double precision: `u ≤ 2⁻⁵³` -/
+def IsDouble : Prop := u ≤ (1 / 2 : ℝ) ^ 53
+/-- single precision: `u ≤ 2⁻²⁴` -/
+def IsSingle : Prop := u ≤ (1 / 2 : ℝ) ^ 24
+
+theorem ubar_double (h : IsDouble) : ubar ≤ 112 / 10 ^ 18 := by
+  unfold IsDouble at h
+  have hu := u_nonneg
+  have h2 : (1 / 2 : ℝ) ^ 53 ≤ 1111 / 10 ^ 19 := by norm_num
+  unfold ubar
+  rw [div_le_iff₀ (by linarith)]
+  linarith
+
+theorem ubar_single (h : IsSingle) : ubar ≤ 597 / 10 ^ 10 := by
+  unfold IsSingle at h
+  have hu := u_nonneg
+  have h2 : (1 / 2 : ℝ) ^ 24 ≤ 59605 / 10 ^ 12 := by norm_num
+  unfold ubar
+  rw [div_le_iff₀ (by linarith)]
+  linarith
+
+omit [Rounding] in
+/-- case split of a 4×4 homogeneous matrix into rotation block, translation column, last row -/
+theorem fin4_cases (P : Fin 4 → Fin 4 → Prop)
+    (hrot : ∀ i j : Fin 3, P ⟨i.val, by omega⟩ ⟨j.val, by omega⟩)
+    (htr : ∀ i : Fin 3, P ⟨i.val, by omega⟩ 3) (hlast : ∀ j, P 3 j) : ∀ i j, P i j := by
+  intro i j
+  fin_cases i
+  · fin_cases j
+    · exact hrot 0 0
+    · exact hrot 0 1
+    · exact hrot 0 2
+    · exact htr 0
+  · fin_cases j
+    · exact hrot 1 0
+    · exact hrot 1 1
+    · exact hrot 1 2
+    · exact htr 1
+  · fin_cases j
+    · exact hrot 2 0
+    · exact hrot 2 1
+    · exact hrot 2 2
+    · exact htr 2
+  · exact hlast j
+
+omit [Rounding] in
+theorem se3_so3_toR (v : Vec RF 7) : SE3.so3 (Vec.toR v) = Vec.toR (SE3.so3 v) := by
+  ext i; fin_cases i <;> rfl
+omit [Rounding] in
+theorem se3_r3_toR (v : Vec RF 7) (i : Fin 3) : (SE3.r3 (Vec.toR v)) i = toReal ((SE3.r3 v) i) := by
+  fin_cases i <;> rfl
+
+/-- bookkeeping: `θ_k · X ≤ K·ū` when `X ≤ X₀` and `k·X₀ ≤ K` -/
+theorem theta_mul_le (k : ℕ) (hk : k ≤ 32) (X X0 K : ℝ) (hX0 : 0 ≤ X) (hX : X ≤ X0)
+    (hK : (k : ℝ) * X0 ≤ K) : theta k * X ≤ K * ubar := by
+  have hub := ubar_nonneg
+  have h1 := theta_le_ubar k hk
+  have hk0 : (0 : ℝ) ≤ k := Nat.cast_nonneg k
+  calc theta k * X ≤ (k * ubar) * X0 := mul_le_mul h1 hX hX0 (by positivity)
+    _ = (k * X0) * ubar := by ring
+    _ ≤ K * ubar := by gcongr
+
+omit [Rounding] in
+theorem nrm2_c1_composition (a b : Vec ℝ 2) : nrm2 (C1.composition a b) = nrm2 a * nrm2 b := by
+  unfold nrm2
+  rw [← Real.sqrt_mul (by positivity)]
+  congr 1
+  exact C1.sqnorm_composition a b
+
+/-- the scale `max(1, T)` of the relative error -/
+def scale (T : ℝ) : ℝ := Max.max 1 T
+omit [Rounding] in
+theorem one_le_scale (T : ℝ) : 1 ≤ scale T := le_max_left _ _
+omit [Rounding] in
+theorem le_scale (T : ℝ) : T ≤ scale T := le_max_right _ _
+omit [Rounding] in
+theorem scale_nonneg (T : ℝ) : 0 ≤ scale T := le_trans zero_le_one (one_le_scale T)
+
+omit [Rounding] in
+theorem se2InvAbs_le (g : Vec ℝ 4) (i : Fin 4) :
+    se2InvAbs g i ≤ if i.val < 2 then nrm2 (SE2.so2 g) * nrm2 (SE2.r2 g) else nrm2 (SE2.so2 g) := by
+  unfold nrm2
+  fin_cases i <;> simp [se2InvAbs, SE2.so2, SE2.r2, mk2, mk4, Vec.of]
+  · have := cs2 (g 3) (g 0) (g 2) (g 1)
+    rw [add_comm (g.get 3 ^ 2)] at this; exact this
+  · exact cs2 (g 2) (g 0) (g 3) (g 1)
+  · apply Real.abs_le_sqrt; nlinarith [sq_nonneg (g 3)]
+  · apply Real.abs_le_sqrt; nlinarith [sq_nonneg (g 2)]
+
+omit [Rounding] in
+theorem nrm2_so2_of_unit (g : Vec ℝ 4) (h : SE2.Unit g) : nrm2 (SE2.so2 g) = 1 := by
+  unfold nrm2 SE2.Unit at *
+  simp only [SE2.so2, mk2, Vec.of]
+  rw [h, Real.sqrt_one]
 
 end Round
 end
